@@ -33,3 +33,91 @@ Definition e_c13_canonical (v : val) : val :=
   | Some s => VB (is_canonical_contig_name s)
   | None => bad_input
   end.
+
+(* ---- pipeline / genome / text layer ----------------------------------------------------- *)
+From CNV Require Import Model.AccessText Model.AccessPipe.
+
+Definition vTagged (l : list tagged) : val :=
+  VL (map (fun r => VL [VS (t_name r); VZ (snd (fst r)); VZ (snd r)]) l).
+Definition getTagged (v : val) : option (list tagged) :=
+  getList (fun x => match getTriple getS getZ getZ x with
+                    | Some (c, s, e) => Some (c, s, e)
+                    | None => None
+                    end) v.
+
+Definition vAccess (o : option (list tagged)) (msg : string) : val :=
+  match o with Some r => vTagged r | None => VErr msg end.
+
+(* text -> its lines under universal newlines, terminators removed *)
+Definition e_c13_lines (v : val) : val :=
+  match getS v with
+  | Some s => VL (map (fun l => VS (unchars l)) (lines_of (chars s)))
+  | None => bad_input
+  end.
+
+(* header line -> sequence name ; any line -> rstrip *)
+Definition e_c13_header_name (v : val) : val :=
+  match getS v with
+  | Some s => VS (header_name (chars s))
+  | None => bad_input
+  end.
+
+Definition e_c13_rstrip (v : val) : val :=
+  match getS v with
+  | Some s => VS (unchars (rstrip (chars s)))
+  | None => bad_input
+  end.
+
+(* FASTA text -> (chrom, start, end) rows (model of get_regions on the file) *)
+Definition e_c13_regions_text (v : val) : val :=
+  match getS v with
+  | Some s => vAccess (get_regions_text s) "sequence line before the first header"
+  | None => bad_input
+  end.
+
+(* one sequence: (gap, runs, exclude tables) -> joined regions *)
+Definition e_c13_sequence (v : val) : val :=
+  match getTriple getZ getRegions (getList getRegions) v with
+  | Some (g, runs, excls) =>
+      match access_sequence g runs excls with
+      | Some r => vRegions r
+      | None => VErr "assert gap > 0"
+      end
+  | None => bad_input
+  end.
+
+Definition getAccessArgs (v : val) :=
+  match v with
+  | VL [vg; vskip; vx; vex] =>
+      match getOpt getZ vg, getB vskip, getList getTagged vex with
+      | Some g, Some skip, Some excls => Some (g, skip, vx, excls)
+      | _, _, _ => None
+      end
+  | _ => None
+  end.
+
+(* (min_gap_size or None, skip_noncanonical, regions table, exclude tables) -> do_access *)
+Definition e_c13_access (v : val) : val :=
+  match getAccessArgs v with
+  | Some (g, skip, vx, excls) =>
+      match getTagged vx with
+      | Some regions => vAccess (do_access g skip regions excls) "assert gap > 0"
+      | None => bad_input
+      end
+  | None => bad_input
+  end.
+
+(* (min_gap_size or None, skip_noncanonical, FASTA text, exclude tables) -> do_access *)
+Definition e_c13_access_text (v : val) : val :=
+  match getAccessArgs v with
+  | Some (g, skip, vx, excls) =>
+      match getS vx with
+      | Some txt =>
+          match get_regions_text txt with
+          | Some regions => vAccess (do_access g skip regions excls) "assert gap > 0"
+          | None => VErr "sequence line before the first header"
+          end
+      | None => bad_input
+      end
+  | None => bad_input
+  end.
